@@ -19,9 +19,9 @@ type c09Item struct {
 	NFields int    `json:"nf"`            // shared-vocabulary fields carried (inserted into / referenced from the dynamic table)
 	VocOff  int    `json:"voc"`           // which part of the vocabulary
 	BodyLen int    `json:"blen,omitempty"`
-	Pos     int    `json:"pos,omitempty"`   // position of the malformed field among the regular fields
-	Split   int    `json:"split,omitempty"` // >0: header block cut at this offset (mod len) into HEADERS+CONTINUATION
-	Gate    bool   `json:"gate,omitempty"`  // good request whose handler is held until the end
+	Pos     int    `json:"pos,omitempty"`    // position of the malformed field among the regular fields
+	Split   int    `json:"split,omitempty"`  // >0: header block cut at this offset (mod len) into HEADERS+CONTINUATION
+	Gate    bool   `json:"gate,omitempty"`   // good request whose handler is held until the end
 	Flight  int    `json:"flight,omitempty"` // frames written right behind the offending one, before the peer could have read the server's reaction: 0 none, 1 DATA, 2 DATA+END_STREAM, 3 WINDOW_UPDATE, 4 trailers
 	RespLen int    `json:"resplen,omitempty"`
 }
